@@ -77,7 +77,27 @@ def run_case(case):
             p = tuple(float(t) for t in p)
             cnt[p] = cnt.get(p, 0) + comp.coefficient
     ref = _ref_sparse_grid(d, lmin, lmax, [float(x) for x in a], [float(x) for x in b], boundary)
-    if set(cnt) != ref:
+    if c.get("inexact"):
+        # a box whose bounds are no dyadic rationals: grid coordinates are rounded, so the reference set is matched within a few ulp
+        # of the box extent - but as a BIJECTION: the same sparse-grid point computed by two component grids must be one point
+        key["inexact_box"] = True
+        tol = [16 * np.finfo(float).eps * max(abs(float(a[k])), abs(float(b[k])), 1e-300) for k in range(d)]
+        refl = sorted(ref)
+        R = np.array(refl, dtype=float).reshape(len(refl), d)
+        hit, bad_match = {}, []
+        for p in cnt:
+            near = np.nonzero(np.all(np.abs(R - np.array(p)) <= tol, axis=1))[0] if len(refl) else []
+            if len(near) != 1:
+                bad_match.append((p, len(near)))
+            else:
+                hit.setdefault(int(near[0]), []).append(p)
+        dup = {refl[i]: ps for i, ps in hit.items() if len(ps) > 1}
+        missing = [refl[i] for i in range(len(refl)) if i not in hit]
+        if bad_match or dup or missing:
+            fails.append(fail("sparse_grid_points", "union of component points is no bijective image of the sparse grid (%d distinct points, %d in the "
+                              "reference): one reference point computed as several floats %r; unmatched %r; missing %r"
+                              % (len(cnt), len(ref), sorted(dup.items())[:2], bad_match[:2], missing[:2]), key))
+    elif set(cnt) != ref:
         fails.append(fail("sparse_grid_points", "union of component points differs from the sparse grid: %d vs %d; only in impl %r only in ref %r"
                           % (len(cnt), len(ref), sorted(set(cnt) - ref)[:3], sorted(ref - set(cnt))[:3]), key))
     bad = {p: v for p, v in cnt.items() if v != 1}
@@ -134,7 +154,7 @@ def run_case(case):
             fails.append(fail("hat_integral", "hat %r: %r, exact %r" % (Bs[i], res[i], exact[i]), key))
         # off-grid points, points on grid lines and points exactly on the faces / corners of the domain
         frac = LATTICE_1D if d == 3 else [0.0, 0.1, 1 / 3, 0.5, 0.6, 0.85, 1.0]
-        lat = [tuple(al[k] + t * (bl[k] - al[k]) for k, t in enumerate(p)) for p in itertools.product(frac, repeat=d)]
+        lat = [tuple(bl[k] if t == 1.0 else al[k] + t * (bl[k] - al[k]) for k, t in enumerate(p)) for p in itertools.product(frac, repeat=d)]
         if d == 3:
             lat += [tuple(al), tuple(bl), (al[0], 0.5 * (al[1] + bl[1]), bl[2])]
         got = np.asarray(sc(lat))
@@ -289,6 +309,18 @@ def cases(tier):
                         if d <= 2 and lmax <= 3 and bi in (0, 2):
                             for flag in ("numpy_bool", "int", "roundtrip"):
                                 out.append({"config": {"d": d, "lmin": lmin, "lmax": lmax, "a": a, "b": b, "boundary": boundary, "flag": flag}})
+    # boxes whose bounds are no dyadic rationals (every grid coordinate is a rounded number; the same point is computed by several
+    # component grids through different expressions)
+    inexact = {1: [([0.1], [0.7]), ([-1.0838099947183877], [5.15908303411468]), ([1 / 3], [2.2]), ([-0.3], [0.9]), ([1e-3], [1.7e-3]), ([-7.1], [-0.3])],
+               2: [([-1.0838099947183877, 0.0], [5.15908303411468, 1.0]), ([0.1, -0.3], [0.7, 0.9]), ([1 / 3, -7.1], [2.2, -0.3])],
+               3: [([0.1, -0.3, 1 / 3], [0.7, 0.9, 2.2]), ([0.0, -1.0838099947183877, -7.1], [1.0, 5.15908303411468, -0.3])]}
+    for d in (1, 2, 3):
+        L = {1: 5, 2: 3, 3: 2 if tier == "quick" else 3}[d]
+        for lmin in range(1, L + 1):
+            for lmax in range(lmin, L + 1):
+                for a, b in inexact[d]:
+                    for boundary in (True, False):
+                        out.append({"config": {"d": d, "lmin": lmin, "lmax": lmax, "a": a, "b": b, "boundary": boundary, "inexact": True}})
     # object reuse: every ordered pair (and some triples) of level ranges on ONE StandardCombi object
     pairs = [(1, 1), (1, 2), (1, 3), (2, 3), (2, 4), (3, 3), (3, 4)]
     for d, box in ((2, ([-1.0, 0.5], [2.0, 3.0])), (1, ([0.0], [1.0])), (3, ([0.0] * 3, [1.0] * 3))):
@@ -329,11 +361,11 @@ def main(ctx):
     for i in (1, len(cs) // 3, len(cs) - 1):
         ctx.add_sample({"case": cs[i], "outcome": results[i]["outcome"]})
     ctx.bounds = {"configurations": sum(1 for c in cs if c["config"].get("kind") != "reuse"), "object_reuse_sequences": sum(1 for c in cs if c["config"].get("kind") == "reuse"),
-                  "max_sparse_grid_points": max(r["outcome"][0] for c, r in zip(cs, results) if c["config"].get("kind") != "reuse")}
+                  "max_sparse_grid_points": max(r["outcome"][0] for c, r in zip(cs, results) if c["config"].get("kind") != "reuse" and r["outcome"] is not None)}
     return ctx.finish(
         rule="complete lattice d x (1<=lmin<=lmax<=L_d) x box x boundary; per configuration ALL nodal unit functions and ALL "
              "hierarchical hats of the sparse-grid space are carried as components of vector-valued functions (evaluations = number of "
              "basis functions decided); non-trivial = more than one sparse grid point",
         assumptions=["TrapezoidalGrid (the nested grid family of the statement), Integration operation",
-                     "float-exact boxes [0,1]^d, [-1,3]^d, [-3,6]x[2,4]x[0,1], and boxes whose bounds coincide with interior grid coordinates of other dimensions ([-1,1]x[0,1], [0,2]x[1,3], [-2,2]x[-1,3]x[0,1]); L_d = 5/4/3 for d=1/2/3 (thorough adds lmax 5 (d=2), 4 (d=3), d=4)",
+                     "boxes with non-dyadic bounds (6/3/2 boxes for d=1/2/3, levels up to 5/3/2-3): point sets compared as a bijection within 16 ulp", "float-exact boxes [0,1]^d, [-1,3]^d, [-3,6]x[2,4]x[0,1], and boxes whose bounds coincide with interior grid coordinates of other dimensions ([-1,1]x[0,1], [0,2]x[1,3], [-2,2]x[-1,3]x[0,1]); L_d = 5/4/3 for d=1/2/3 (thorough adds lmax 5 (d=2), 4 (d=3), d=4)",
                      "tolerance 1e-12"])
